@@ -48,7 +48,7 @@ func run(r *core.R) {
 		"gc_cold_ip_gc_call", "gc_live_pod_lookup", "gc_release_names_no_current_allocation", "gc_block_release_is_noop", "gc_host_release_is_noop",
 		"release_after_grace", "release_immediate_node_gone", "release_tunnel_address", "tunnel_address_allocated",
 		"cni_add_ok", "cni_add_failed", "cni_del_failed", "sandbox_with_two_addresses", "node_with_only_non_affine_allocations",
-		"liveness_leaks_demanded", "liveness_leak_released_in_time", "liveness_leak_not_demanded_pod_unreported",
+		"node_recreated_during_sync_pass", "liveness_leaks_demanded", "liveness_leak_released_in_time", "liveness_leak_not_demanded_pod_unreported",
 		"stale_view_made_live_allocation_suspect", "foreign_allocation")
 	src := r.Src
 	w := newWorld(r)
@@ -116,6 +116,14 @@ func run(r *core.R) {
 	}
 
 	w.s.Policy = w.faultPolicy
+	w.s.OnStep = func(int) {
+		for _, q := range w.s.Parked() {
+			if q.Actor == w.gcActor {
+				return
+			}
+		}
+		w.gcIdleSeenAt = w.now()
+	}
 	w.s.TimeJump = func() time.Duration {
 		if w.quiesced || !src.Chance(w.pJump, "t_jump") {
 			return 0
